@@ -276,3 +276,9 @@ func withDefaults(o webp.EncoderOptions) webp.EncoderOptions {
 	}
 	return o
 }
+
+// colorToNRGBA8 returns the non-premultiplied 8-bit pixel of an image at (x, y).
+func colorToNRGBA8(im image.Image, x, y int) [4]int {
+	c := color.NRGBAModel.Convert(im.At(x, y)).(color.NRGBA)
+	return [4]int{int(c.R), int(c.G), int(c.B), int(c.A)}
+}
